@@ -706,3 +706,6 @@ CHECKS["C17"]["text"] += (
 CHECKS["C18"]["text"] += (
     " The contours of a stack of masks are read event by event in an order "
     "with repetitions and compared with the contour of each mask.")
+CHECKS["C13"]["text"] += (
+    " A stored index feature with fewer entries than events is a corruption "
+    "of its own (the checker must report, not raise).")
